@@ -188,24 +188,31 @@ def check_sampling(cases):
     return bad
 
 
-def check_deadband_rt():
-    """DeadBandRT: documented return flags - zur is set when the input comes back inside from above (previous zu and
-    present zi), zlr likewise from below; held while inside; cleared when the input leaves again."""
+def check_deadband_rt(cases):
+    """DeadBandRT on every TLC-enumerated input history (values in halves, band (-1, 1)): all five flags after every call."""
     NumParam, Algeb, State = _mk()
     from andes.core.discrete import DeadBandRT
-    u, c, lo, hi = Algeb(), NumParam(), NumParam(), NumParam()
-    u.v = np.array([0.0])
-    c.v = np.array([0.0])
-    lo.v = np.array([-1.0])
-    hi.v = np.array([1.0])
-    db = DeadBandRT(u, c, lo, hi)
-    db.list2array(1)
-    seq = [(0.0, 0, 0), (2.0, 0, 0), (0.5, 1, 0), (0.2, 1, 0), (-2.0, 0, 0), (-0.5, 0, 1), (2.0, 0, 0)]
     bad = []
-    for k, (val, zur, zlr) in enumerate(seq):
-        u.v[:] = val
+    cases = list(cases)
+    n = len(cases)
+    u, c, lo, hi = Algeb(), NumParam(), NumParam(), NumParam()
+    u.v = np.zeros(n)
+    c.v = np.zeros(n)
+    lo.v = -np.ones(n)
+    hi.v = np.ones(n)
+    db = DeadBandRT(u, c, lo, hi)
+    db.list2array(n)
+    steps = len(cases[0]["inputs"]) if cases else 0
+    failed = set()
+    for k in range(steps):
+        u.v[:] = [cs["inputs"][k] * 0.5 for cs in cases]
         db.check_var()
-        if (int(db.zur[0]), int(db.zlr[0])) != (zur, zlr):
-            bad.append(dict(cls="DeadBandRT", step=k, input=val, expected=[zur, zlr], got=[int(db.zur[0]), int(db.zlr[0])]))
-            break
+        for j, cs in enumerate(cases):
+            if j in failed:
+                continue
+            exp = cs["flags"][k]
+            got = dict(zu=int(db.zu[j]), zl=int(db.zl[j]), zi=int(db.zi[j]), zur=int(db.zur[j]), zlr=int(db.zlr[j]))
+            if got != exp:
+                failed.add(j)
+                bad.append(dict(cls="DeadBandRT", step=k, inputs_in_halves=cs["inputs"], expected=exp, got=got))
     return bad
